@@ -45,7 +45,7 @@ RetStep(r0, p, e, op, rc) ==
 (* alt: the other admissible shape of a repair (order of deletions in destroy, dev_add growing the array first) *)
 Step(r0, p, e, alt) ==
   IF r0.crashed THEN Ok(r0, << >>)
-  ELSE IF e.e \in Inputs /\ p # << >> THEN Rej("the model expects the output " \o Exp(p) \o " before the next input")
+  ELSE IF e.e \in Inputs /\ p # << >> THEN Rej("output missing before the next input: the model expects " \o Exp(p))
   ELSE
   CASE e.e = "dev_add" ->
          IF e.d \notin Devs \/ ~r0.alive \/ r0.dev[e.d].used \/ e.ver > 65535 THEN Rej("scenario outside the model")
@@ -106,7 +106,7 @@ Step(r0, p, e, alt) ==
                                       [] OTHER -> [e |-> "close", sk |-> e.sk])
             /\ (e.e = "arm" => e.per = e.ms)
          THEN Ok(r0, Tail(p))
-         ELSE Rej(e.e \o " not predicted (or not periodic); the model expects " \o Exp(p))
+         ELSE Rej("timer arm / disarm or socket close not predicted (or timer not periodic); the model expects " \o Exp(p))
     [] e.e = "dev_add.ret" -> RetStep(r0, p, e, "dev_add", e.rc)
     [] e.e = "svc_add.ret" -> RetStep(r0, p, e, "svc_add", e.rc)
     [] e.e = "link.ret"    -> RetStep(r0, p, e, "link", e.rc)
